@@ -6,11 +6,11 @@
    Part 1 states the property once for every format that satisfies the obligations [laws];
    part 2 states that the five modelled handlers satisfy them; part 3 that the transcriptions of
    the handlers' code (Model/Cont*.v, tied to the implementation by the correspondence run) are the
-   reference operations; part 4 lifts PNG to bytes; part 5 is the RIFF remove defect.
+   reference operations; part 4 lifts PNG and JPEG to bytes; part 5 is the RIFF remove defect.
    Admissible stores/assets: [c2pa_adm], [png_adm], [jadm]/[jseg_ok], [gif_adm], [riff_adm]. *)
 From Coq Require Import List NArith Bool Lia.
 From C2PA Require Import Base.Bytes Model.Container Model.ContPng Model.ContJpeg Model.ContGif Model.ContRiff Model.ContRun
-     Proofs.ContainerProofs Proofs.ContPngProofs Proofs.ContJpegProofs Proofs.ContGifProofs Generated.C07_facts.
+     Proofs.ContainerProofs Proofs.ContPngProofs Proofs.ContJpegProofs Proofs.ContJpegBytes Proofs.ContGifProofs Generated.C07_facts.
 Import ListNotations.
 
 (* the constants of the models are the ones found in the source on this run *)
@@ -112,7 +112,7 @@ Theorem c07_riff_write_handler :
   forall cs b, b <> [] -> riff_write_children cs b = gwrite riff_format cs b.
 Proof. exact riff_write_children_generic. Qed.
 
-(* ---- 4. PNG on bytes: every valid PNG = encoding of a well-formed chunk list ---- *)
+(* ---- 4. PNG and JPEG on bytes.  PNG: every valid PNG = encoding of a well-formed chunk list ---- *)
 Theorem c07_png_decode_encode : forall cs tr, chunks_wf cs -> png_dec (png_enc cs tr) = ROk (cs, tr).
 Proof. exact png_dec_enc. Qed.
 
@@ -126,6 +126,21 @@ Proof. exact png_run_bytes. Qed.
 
 Theorem c07_png_read_bytes : forall crc cs tr, chunks_wf cs -> png_read (png_enc cs tr) = gread (png_format crc) cs.
 Proof. exact png_read_bytes. Qed.
+
+(* JPEG on bytes: every valid JPEG = img-parts encoding of a well-formed segment list (segments up to the
+   first SOS, whose entropy field is the rest of the file); any operation sequence on the bytes is the
+   generic run on the segments, and stays a valid JPEG *)
+Theorem c07_jpeg_decode_encode : forall l, jwf l -> jpeg_dec (jpeg_enc l) = Some l.
+Proof. exact jpeg_dec_enc. Qed.
+
+Theorem c07_jpeg_bytes :
+  forall ops l, jwf l -> okl jpeg_format jseg_ok l -> Forall (adm_op jadm) ops ->
+    jpeg_run (jpeg_enc l) ops = ROk (jpeg_enc (grun jpeg_format l ops))
+    /\ jwf (grun jpeg_format l ops) /\ okl jpeg_format jseg_ok (grun jpeg_format l ops).
+Proof. exact jpeg_run_bytes. Qed.
+
+Theorem c07_jpeg_read_bytes : forall l, jwf l -> jpeg_read (jpeg_enc l) = nonempty_or_notfound (gread jpeg_format l).
+Proof. exact jpeg_read_bytes. Qed.
 
 (* ---- 5. RIFF remove (F-RIFF-REMOVE): remove is write_cai with an empty store, which is the identity ---- *)
 Theorem c07_riff_remove_refuted :
